@@ -5,6 +5,8 @@
 //! get_cells_capacity, get_indexer_tip}` through the add-only hook `ckb_rich_indexer::verif::VerifRichIndexer` over a
 //! sqlite FILE in the tmpfs scratch directory, on the same op language as the key-value stream (see c18.rs; the model
 //! side is `Driver/C18.lean` with the argument `rich`, relational model `Model/RichIndexer.lean`). Extra tokens:
+//!   `config <keep> <interval> b<n> c<n>` = custom block / cell filter of the case (rhai sources below; b1 = even block
+//!   numbers, c1 = lock code 1, c2 = capacity >= 100, c3 = non-empty data; the key-value stream ignores them),
 //!   search mode `part` (partial search: `instr(args, x) > 0`), and
 //!   rtxs lock|type <script> pre|exact|part asc|desc <limit> u|g <6 filter tokens>   get_transactions with a full filter
 //! Answers (rich):
@@ -21,14 +23,17 @@
 //! (`rich-rollback-not-restored`), and, where both indexers are expected to satisfy the same contract (exact mode;
 //! get_transactions without a filter script), the answers of the real RocksDB indexer fed with the same blocks must be
 //! the same (`rich-neq-rocksdb`).
-//! Deviations of the code that are NOT yet listed in known_findings.txt are counted (`NEW-FINDING-…` in the histogram),
-//! never accepted silently and never failing: the all-0xff prefix upper bound and the ungrouped cursor offset.
+//! `rich-prefix-allff-upper-bound` (known finding): only a query whose prefix (searched args in prefix mode, filter script
+//! args, output-data prefix) is empty or all 0xff AND whose answer is exactly what the code's byte range
+//! `[p, get_binary_upper_boundary(p))` yields is attributed to it; every other difference is a plain failure.
+//! `rich-txs-cursor-offset-restart` (repaired by /repo 706cf75): a walk that equals the OLD cursor arithmetic is reported
+//! under that class, any other wrong walk as `rich-txs-pagination`; both are plain violations.
 use super::*;
 use ckb_rich_indexer::verif::VerifRichIndexer;
 use ckb_rich_indexer::AsyncRichIndexerHandle;
 use sqlx::Row;
 
-const MAX_TX_PAGES: usize = 40;
+const MAX_TX_PAGES: usize = 120;
 const BIG: u32 = 1_000_000;
 
 #[derive(Clone, Copy, PartialEq, Eq, Debug)]
@@ -79,12 +84,55 @@ struct RState {
     /// (spent out-point, consuming tx id, input index)
     ins: Vec<((u64, u32), u64, u32)>,
 }
-fn rich_replay(chain: &[BlockSpec]) -> RState {
+/// the custom filters of a case (`config <keep> <interval> b<n> c<n>`): what they mean, independently of rhai
+fn block_matches(bf: u64, b: &BlockSpec) -> bool {
+    match bf {
+        1 => b.number % 2 == 0,
+        _ => true,
+    }
+}
+fn cell_matches(cf: u64, o: &OutSpec) -> bool {
+    match cf {
+        1 => o.lock.code == 1,
+        2 => o.cap >= 100,
+        3 => !o.data.is_empty(),
+        _ => true,
+    }
+}
+/// the rhai sources given to `CustomFilters::new`
+fn block_filter_src(bf: u64) -> Option<String> {
+    match bf {
+        // (`to_uint` of /repo slices `&s[..2]` unconditionally and panics on a one-character string: two-digit literals)
+        1 => Some("to_uint(block.header.number) % to_uint(\"0x2\") == to_uint(\"0x0\")".to_string()),
+        _ => None,
+    }
+}
+fn cell_filter_src(cf: u64) -> Option<String> {
+    match cf {
+        1 => Some(format!("output.lock.code_hash == \"0x{}\"", "01".repeat(32))),
+        2 => Some("to_uint(output.capacity) >= to_uint(\"100\")".to_string()),
+        // (`output_data` is the hex of the molecule `Bytes`, 4-byte little-endian length header included)
+        3 => Some("output_data != \"0x00000000\"".to_string()),
+        _ => None,
+    }
+}
+/// the chain as an index with these filters sees it: blocks that do not match contribute their block row only (the
+/// cells they spend stay live in the index), cells that do not match are never indexed, a transaction is indexed iff
+/// one of its outputs matches or one of its inputs spends an indexed cell (every transaction when there is no cell filter)
+fn rich_replay(chain: &[BlockSpec], bf: u64, cf: u64) -> RState {
     let mut st = RState { live: BTreeMap::new(), rows: vec![], blocks: vec![], txs: vec![], outs: vec![], ins: vec![] };
     for (bi, b) in chain.iter().enumerate() {
         st.blocks.push((b.number, b.id));
+        if !block_matches(bf, b) {
+            continue;
+        }
         for (txi, tx) in b.txs.iter().enumerate() {
             let txi = txi as u32;
+            // without a cell filter every transaction of a matching block is indexed
+            let matched = cf == 0 || tx.outputs.iter().any(|o| cell_matches(cf, o)) || (txi > 0 && tx.inputs.iter().any(|i| st.live.contains_key(i)));
+            if !matched {
+                continue;
+            }
             if txi > 0 {
                 for (ii, inp) in tx.inputs.iter().enumerate() {
                     if let Some(c) = st.live.remove(inp) {
@@ -104,6 +152,9 @@ fn rich_replay(chain: &[BlockSpec]) -> RState {
             st.txs.push((tx.id, bi + 1, txi));
             for (oi, o) in tx.outputs.iter().enumerate() {
                 let oi = oi as u32;
+                if !cell_matches(cf, o) {
+                    continue;
+                }
                 st.live.insert((tx.id, oi), OCell { op: (tx.id, oi), bn: b.number, txi, out: o.clone() });
                 st.outs.push((tx.id, oi, o.clone(), false));
                 st.rows.push(RRow { lock_family: true, script: o.lock.clone(), bn: b.number, txi, io: oi, is_input: false, tx: tx.id, cell: o.clone() });
@@ -170,6 +221,14 @@ fn upper(p: &[u8]) -> Vec<u8> {
         }
         None => vec![255; p.len() + 1],
     }
+}
+/// the only prefixes whose byte range is not the set of their extensions: empty (upper = 32 x ff) and all 0xff
+fn allff_or_empty(p: &[u8]) -> bool {
+    p.iter().all(|b| *b == 255)
+}
+/// does the query contain a prefix condition of that shape (searched args in prefix mode, filter script, data prefix)
+fn allff_shape(m: Mode, q: &ScriptSpec, f: &FilterSpec) -> bool {
+    (m == Mode::Pre && allff_or_empty(&q.args)) || f.script.as_ref().map(|s| allff_or_empty(&s.args)).unwrap_or(false) || f.data.as_ref().map(|(k, d)| *k == 'p' && allff_or_empty(d)).unwrap_or(false)
 }
 fn prefix_match(p: &[u8], v: &[u8], sem: RSem) -> bool {
     if sem.range { v >= p && v < upper(p).as_slice() } else { v.starts_with(p) }
@@ -270,6 +329,9 @@ pub struct RichSim {
     kv: Sim,
     kv_live: bool,
     chain: Vec<BlockSpec>,
+    /// custom filters of the case (0 = none)
+    bf: u64,
+    cf: u64,
     snapshots: Vec<(String, Vec<String>)>,
     n_reorg: u64,
     n_unindexed_before_indexed: u64,
@@ -299,7 +361,7 @@ impl RichSim {
     pub fn new(root: PathBuf) -> RichSim {
         let rt = tokio::runtime::Builder::new_multi_thread().worker_threads(2).enable_all().build().expect("tokio runtime");
         let kv = Sim::new(root.join("kv"));
-        RichSim { rt, root, n_dirs: 0, dir: None, idx: None, handle: None, reader: None, kv, kv_live: false, chain: vec![], snapshots: vec![], n_reorg: 0, n_unindexed_before_indexed: 0, n_queries_nonempty: 0, n_gc_shared_type: 0 }
+        RichSim { rt, root, n_dirs: 0, dir: None, idx: None, handle: None, reader: None, kv, kv_live: false, chain: vec![], bf: 0, cf: 0, snapshots: vec![], n_reorg: 0, n_unindexed_before_indexed: 0, n_queries_nonempty: 0, n_gc_shared_type: 0 }
     }
     pub fn close(&mut self) {
         if let Some(r) = self.reader.take() {
@@ -323,13 +385,20 @@ impl RichSim {
         self.n_queries_nonempty = 0;
         self.n_gc_shared_type = 0;
     }
-    fn open(&mut self) {
+    fn open(&mut self, bf: u64, cf: u64) {
         self.close();
+        self.bf = bf;
+        self.cf = cf;
         self.n_dirs += 1;
         let d = self.root.join(format!("rich{}", self.n_dirs));
         std::fs::create_dir_all(&d).expect("mkdir");
         let path = d.join("rich.sqlite");
-        let idx = self.rt.block_on(VerifRichIndexer::connect_sqlite(path.to_str().expect("utf8 path")));
+        let (bsrc, csrc) = (block_filter_src(bf), cell_filter_src(cf));
+        let idx = if bf == 0 && cf == 0 {
+            self.rt.block_on(VerifRichIndexer::connect_sqlite(path.to_str().expect("utf8 path")))
+        } else {
+            self.rt.block_on(VerifRichIndexer::connect_sqlite_with_filters(path.to_str().expect("utf8 path"), bsrc.as_deref(), csrc.as_deref()))
+        };
         self.handle = Some(idx.handle(usize::MAX));
         self.idx = Some(idx);
         let url = format!("sqlite://{}", path.display());
@@ -338,7 +407,8 @@ impl RichSim {
         self.dir = Some(d);
         // the RocksDB indexer next to it: no pruning at all
         self.kv.open(1_000_000_000, 1_000_000_000);
-        self.kv_live = true;
+        // the key-value indexer runs without filters: it is compared only in cases without filters
+        self.kv_live = bf == 0 && cf == 0;
         self.chain.clear();
         self.snapshots.clear();
     }
@@ -410,7 +480,7 @@ impl RichSim {
     }
     fn check_rows(&mut self, out: &mut Out, when: &str) {
         let a = self.dump_rows();
-        let b = rich_replay(&self.chain).expected_dump();
+        let b = rich_replay(&self.chain, self.bf, self.cf).expected_dump();
         if a != b {
             let da: Vec<&String> = a.iter().filter(|x| !b.contains(x)).take(4).collect();
             let db: Vec<&String> = b.iter().filter(|x| !a.contains(x)).take(4).collect();
@@ -451,13 +521,13 @@ impl RichSim {
         }
     }
     /// a failed oracle comparison: the documented reading `want(RSPEC)` differs from `got`; attribute it
-    fn judge<T: PartialEq + std::fmt::Debug>(&self, out: &mut Out, got: &T, want: &dyn Fn(RSem) -> T, plain: &str, line: &str) {
+    fn judge<T: PartialEq + std::fmt::Debug>(&self, out: &mut Out, got: &T, want: &dyn Fn(RSem) -> T, plain: &str, line: &str, allff_shape: bool) {
         if *got == want(RSPEC) {
             return;
         }
-        if *got == want(RRANGE) {
-            // a deviation of the code that is not (yet) a listed known finding: counted, reported by the engineer
-            out.count(&format!("NEW-FINDING-{}", CLASS_ALLFF));
+        if allff_shape && *got == want(RRANGE) {
+            // the known finding: the prefix is empty / all 0xff and the answer is the code's byte range
+            out.oracle_fail(CLASS_ALLFF, &format!("{} got={:?} want={:?}", line, got, want(RSPEC)));
             return;
         }
         out.oracle_fail(plain, &format!("{} got={:?} want={:?}", line, got, want(RSPEC)));
@@ -542,8 +612,9 @@ impl RichSim {
         }
         groups
     }
-    /// the pages the code's cursor (last tx, rows of that tx at the END OF THE PAGE) produces over the full list `l`
-    fn simulate_cursor_as_coded(l: &[UTx], limit: usize, thin: bool) -> Vec<Vec<String>> {
+    /// the pages the cursor arithmetic of BEFORE the repair 706cf75 (last tx, rows of that tx at the END OF THE PAGE)
+    /// produces over the full list `l` — only to name the class of a wrong walk
+    fn simulate_cursor_pre_f24(l: &[UTx], limit: usize, thin: bool) -> Vec<Vec<String>> {
         let mut pages = vec![];
         let mut cursor: Option<(u64, usize)> = None;
         loop {
@@ -570,7 +641,7 @@ impl RichSim {
     }
 
     fn do_txs(&mut self, out: &mut Out, line: &str, lock: bool, q: &ScriptSpec, m: Mode, f: &FilterSpec, desc: bool, limit: u32, group: bool) {
-        let st = rich_replay(&self.chain);
+        let st = rich_replay(&self.chain, self.bf, self.cf);
         let thin = m != Mode::Exact;
         let mut pages: Vec<Vec<String>> = vec![];
         let mut flat: Vec<UTx> = vec![];
@@ -593,7 +664,7 @@ impl RichSim {
         let (full, _, _) = self.txs_page(lock, q, m, f, desc, BIG, false, None);
         let got = Self::group_flat(&full);
         let want = |sem: RSem| roracle_txs(&st, lock, m, q, f, desc, sem);
-        self.judge(out, &got, &want, "rich-txs-neq-chain-filter", line);
+        self.judge(out, &got, &want, "rich-txs-neq-chain-filter", line, allff_shape(m, q, f));
         if group {
             let walked: Vec<String> = pages.iter().flatten().cloned().collect();
             let expect: Vec<String> = got.iter().map(show_group).collect();
@@ -607,8 +678,8 @@ impl RichSim {
             expect.push(vec![]);
             expect.truncate(MAX_TX_PAGES);
             if pages != expect {
-                if pages == Self::simulate_cursor_as_coded(&full, limit as usize, thin) {
-                    out.count(&format!("NEW-FINDING-{}", CLASS_CURSOR));
+                if pages == Self::simulate_cursor_pre_f24(&full, limit as usize, thin) {
+                    out.oracle_fail(CLASS_CURSOR, &format!("{} pages={:?} want={:?}", line, pages, expect));
                 } else {
                     out.oracle_fail("rich-txs-pagination", &format!("{} pages={:?} want={:?}", line, pages, expect));
                 }
@@ -653,7 +724,14 @@ impl RichSim {
         let t: Vec<&str> = line.split_whitespace().collect();
         match t[0] {
             "config" => {
-                self.open();
+                // optional: b<n> c<n> = custom block / cell filter of the case
+                let pick = |p: char| -> u64 { t.iter().skip(3).find(|x| x.starts_with(p)).map(|x| x[1..].parse().expect("filter id")).unwrap_or(0) };
+                let (bf, cf) = (pick('b'), pick('c'));
+                assert!(bf <= 1 && cf <= 3, "malformed: filter id");
+                self.open(bf, cf);
+                if bf != 0 || cf != 0 {
+                    out.count("config-with-custom-filters");
+                }
                 out.op(line, "ok");
             }
             "append" => {
@@ -666,7 +744,7 @@ impl RichSim {
                 let pre_tip = self.tip_string();
                 self.snapshots.push((pre_tip, pre));
                 // statistics: an input the index does not know BEFORE one it knows, in the same transaction
-                let st = rich_replay(&self.chain);
+                let st = rich_replay(&self.chain, self.bf, self.cf);
                 let mut created: BTreeSet<(u64, u32)> = BTreeSet::new();
                 for (i, tx) in spec.txs.iter().enumerate() {
                     if i > 0 {
@@ -679,7 +757,9 @@ impl RichSim {
                         }
                     }
                     for oi in 0..tx.outputs.len() {
-                        created.insert((tx.id, oi as u32));
+                        if block_matches(self.bf, &spec) && cell_matches(self.cf, &tx.outputs[oi]) {
+                            created.insert((tx.id, oi as u32));
+                        }
                     }
                 }
                 self.rt.block_on(self.idx().append(&block)).expect("rich append");
@@ -696,7 +776,7 @@ impl RichSim {
             }
             "wf" => {
                 let spec = parse_block_args(&t);
-                let st = rich_replay(&self.chain);
+                let st = rich_replay(&self.chain, self.bf, self.cf);
                 let ids: Vec<u64> = spec.txs.iter().map(|x| x.id).collect();
                 let a = (0..ids.len()).all(|i| !ids[..i].contains(&ids[i])) && ids.iter().all(|i| !st.txs.iter().any(|x| x.0 == *i));
                 let o = spec.txs.iter().enumerate().all(|(i, tx)| tx.inputs.iter().all(|(ti, _)| spec.txs.iter().enumerate().all(|(j, o)| o.id != *ti || j < i)));
@@ -715,7 +795,7 @@ impl RichSim {
                 out.op(line, &format!("wf a={} o={} s={} l=1", bit(a), bit(o), bit(s)));
             }
             "rollback" => {
-                let before = rich_replay(&self.chain);
+                let before = rich_replay(&self.chain, self.bf, self.cf);
                 self.rt.block_on(self.idx().rollback()).expect("rich rollback");
                 let snap = self.snapshots.pop();
                 let popped = self.chain.pop();
@@ -733,7 +813,7 @@ impl RichSim {
                 }
                 // statistics: a script that survives ONLY as a type script of an older output
                 if let Some(b) = &popped {
-                    let after = rich_replay(&self.chain);
+                    let after = rich_replay(&self.chain, self.bf, self.cf);
                     let gone_types: BTreeSet<ScriptSpec> = b.txs.iter().flat_map(|x| x.outputs.iter().filter_map(|o| o.type_.clone())).collect();
                     if gone_types.iter().any(|ty| after.outs.iter().any(|o| o.2.type_.as_ref() == Some(ty)) && !after.outs.iter().any(|o| &o.2.lock == ty)) {
                         self.n_gc_shared_type += 1;
@@ -767,20 +847,20 @@ impl RichSim {
             "live" | "rawtxs" => {
                 let lock = t[1] == "lock";
                 let q = ScriptSpec::parse(t[2]);
-                let st = rich_replay(&self.chain);
+                let st = rich_replay(&self.chain, self.bf, self.cf);
                 let f = FilterSpec::default();
                 if t[0] == "live" {
                     let pages = self.cells_walk(lock, &q, Mode::Pre, &f, false, BIG);
                     let v: Vec<String> = pages.iter().flatten().map(|x| x.0.split('@').next().unwrap().to_string()).collect();
                     let want = |sem: RSem| -> Vec<String> { roracle_cells(&st, &self.chain, lock, Mode::Pre, &q, &f, false, sem).iter().map(|x| x.0.split('@').next().unwrap().to_string()).collect() };
-                    self.judge(out, &v, &want, "rich-live-neq-chain-filter", line);
+                    self.judge(out, &v, &want, "rich-live-neq-chain-filter", line, allff_shape(Mode::Pre, &q, &f));
                     out.count("live");
                     out.op(line, &format!("live {}", if v.is_empty() { "-".into() } else { v.join(",") }));
                 } else {
                     let (full, _, _) = self.txs_page(lock, &q, Mode::Pre, &f, false, BIG, false, None);
                     let v: Vec<String> = full.iter().map(|r| r.tx.to_string()).collect();
                     let want = |sem: RSem| -> Vec<String> { roracle_txs(&st, lock, Mode::Pre, &q, &f, false, sem).iter().flat_map(|g| std::iter::repeat(g.0.to_string()).take(g.3.len())).collect() };
-                    self.judge(out, &v, &want, "rich-rawtxs-neq-chain-filter", line);
+                    self.judge(out, &v, &want, "rich-rawtxs-neq-chain-filter", line, allff_shape(Mode::Pre, &q, &f));
                     out.count("rawtxs");
                     out.op(line, &format!("rawtxs {}", if v.is_empty() { "-".into() } else { v.join(",") }));
                 }
@@ -794,10 +874,10 @@ impl RichSim {
                 assert!(limit >= 1, "malformed: limit 0");
                 let f = FilterSpec::parse(&t[6..12]);
                 let pages = self.cells_walk(lock, &q, m, &f, desc, limit);
-                let st = rich_replay(&self.chain);
+                let st = rich_replay(&self.chain, self.bf, self.cf);
                 let got: Vec<String> = pages.iter().flatten().map(|x| x.0.clone()).collect();
                 let want = |sem: RSem| -> Vec<String> { roracle_cells(&st, &self.chain, lock, m, &q, &f, desc, sem).into_iter().map(|x| x.0).collect() };
-                self.judge(out, &got, &want, "rich-cells-neq-chain-filter", line);
+                self.judge(out, &got, &want, "rich-cells-neq-chain-filter", line, allff_shape(m, &q, &f));
                 let n = pages.len();
                 if pages.iter().enumerate().any(|(i, p)| if i + 2 < n { p.len() != limit as usize } else if i + 2 == n { p.is_empty() || p.len() > limit as usize } else { !p.is_empty() }) {
                     out.oracle_fail("rich-cells-pagination", &format!("{} pages={:?}", line, pages.iter().map(|p| p.len()).collect::<Vec<_>>()));
@@ -867,7 +947,7 @@ impl RichSim {
                 let f = FilterSpec::parse(&t[4..10]);
                 let key = self.key(lock, &q, m, f.to_json(), false);
                 let r = self.rt.block_on(self.handle().get_cells_capacity(key)).expect("rich get_cells_capacity");
-                let st = rich_replay(&self.chain);
+                let st = rich_replay(&self.chain, self.bf, self.cf);
                 let (ans, got): (String, Option<(u64, String)>) = match r {
                     None => ("cap none".to_string(), None),
                     Some(c) => {
@@ -882,7 +962,7 @@ impl RichSim {
                     let cells = roracle_cells(&st, &self.chain, lock, m, &q, &f, false, sem);
                     if cells.is_empty() { None } else { Some((cells.iter().map(|x| x.1).sum(), tipw.clone())) }
                 };
-                self.judge(out, &got, &want, "rich-capacity-neq-chain-filter", line);
+                self.judge(out, &got, &want, "rich-capacity-neq-chain-filter", line, allff_shape(m, &q, &f));
                 if self.kv_live && m == Mode::Exact && f.script.is_none() {
                     let key = self.kv.search_key(lock, &q, true, f.to_json(), false);
                     let k = self.kv.handle().get_cells_capacity(key).expect("kv get_cells_capacity");
@@ -946,8 +1026,14 @@ fn rich_query_line(g: &Gen, rng: &mut Rng, rs: &RichSim) -> String {
 fn gen_case_rich(out: &mut Out, rng: &mut Rng, rs: &mut RichSim, steps: usize) {
     rs.reset();
     let start = *rng.pick(&[0u64, 0, 1, 7, 1000]);
-    out.begin_case(&format!("rich start={}", start));
-    rs.exec(out, "config 100 1000");
+    // custom filters in 2 cases of 5: the index then misses cells / whole blocks the chain spends later
+    let (bf, cf) = if rng.chance(3, 5) { (0, 0) } else { *rng.pick(&[(0u64, 1u64), (0, 2), (0, 3), (1, 0), (1, 2), (1, 3)]) };
+    out.begin_case(&format!("rich start={} block_filter={} cell_filter={}", start, bf, cf));
+    if bf == 0 && cf == 0 {
+        rs.exec(out, "config 100 1000");
+    } else {
+        rs.exec(out, &format!("config 100 1000 b{} c{}", bf, cf));
+    }
     let mut g = Gen::new(script_pool(rng, true), true, 4);
     g.unresolvable_anywhere = true;
     g.start_number = start;
@@ -982,7 +1068,7 @@ fn gen_case_rich(out: &mut Out, rng: &mut Rng, rs: &mut RichSim, steps: usize) {
     }
     rs.exec(out, "dump");
     if rs.n_reorg > 0 && rs.n_unindexed_before_indexed > 0 && rs.n_queries_nonempty > 0 {
-        out.nontrivial(format!("S:s{}r{}u{}g{}b{}", start.min(2), rs.n_reorg.min(5), rs.n_unindexed_before_indexed.min(4), rs.n_gc_shared_type.min(3), rs.chain.len()));
+        out.nontrivial(format!("S:s{}f{}.{}r{}u{}g{}b{}", start.min(2), bf, cf, rs.n_reorg.min(5), rs.n_unindexed_before_indexed.min(4), rs.n_gc_shared_type.min(3), rs.chain.len()));
     }
 }
 
@@ -1023,4 +1109,4 @@ pub fn run_rich(opts: &Opts, out: &mut Out, rng: &mut Rng, root: &std::path::Pat
     rs.close();
 }
 
-pub const RICH_RULE: &str = "rich stream: a case is non-trivial when it contains at least one reorg (rollback of >=1 block followed by other blocks), at least one transaction with an input the index does not know BEFORE an input it knows, and at least one query with a non-empty answer; fingerprint S:first block number class/reorgs/transactions with an unindexed input before an indexed one/rollbacks that must keep a script referenced only as a type script/final chain length";
+pub const RICH_RULE: &str = "rich stream: a case is non-trivial when it contains at least one reorg (rollback of >=1 block followed by other blocks), at least one transaction with an input the index does not know BEFORE an input it knows, and at least one query with a non-empty answer; fingerprint S:first block number class/block filter.cell filter/reorgs/transactions with an unindexed input before an indexed one/rollbacks that must keep a script referenced only as a type script/final chain length";
